@@ -37,11 +37,13 @@ func (p *Parser) parseMatchAgainst(matchFunc *ast.FunctionCall) (ast.Expression,
 	}
 
 	// Consume optional mode keywords until we hit )
-	mode := ""
+	var modeWords strings.Builder
 	for !p.isType(models.TokenTypeRParen) && !p.isType(models.TokenTypeEOF) {
-		mode += " " + p.currentToken.Literal
+		modeWords.WriteByte(' ')
+		modeWords.WriteString(p.currentToken.Literal)
 		p.advance()
 	}
+	mode := modeWords.String()
 
 	if !p.isType(models.TokenTypeRParen) {
 		return nil, p.expectedError(")")
